@@ -230,6 +230,7 @@ func (fc *dataFlushChecker) requestFlushJob(request *flushRequest) {
 	case <-fc.ctx.Done():
 		return
 	case fc.flushRequestCh <- request:
+		verifGate("flushchecker.sent")
 		fc.dbInFlushing.Store(request.db.Name(), request)
 		// add count of flush in flight
 		fc.flushInFlight.Inc()
